@@ -30,7 +30,7 @@ ASSUMPTIONS = [
     "totals['results'] is not compared (only numeric results are summed).",
     "Device preprocessing may rewrite circuits; all expectations are computed from the circuits the device actually received.",
 ]
-BUDGET = {"quick": {"examples": 450}, "thorough": {"examples": 16000, "shards": 16}}
+BUDGET = {"quick": {"examples": 1000}, "thorough": {"examples": 16000, "shards": 16}}
 SHRINK_LISTS = ("steps", "circs")
 
 DEVICES = ["default.qubit", "default.qubit", "default.qubit", "default.mixed", "reference.qubit", "null.qubit"]
@@ -101,9 +101,8 @@ def step_st():
     return st.one_of(
         st.fixed_dictionaries({"op": st.just("enter"), "how": st.sampled_from(["new", "new", "reuse"]), "persistent": st.booleans()}),
         st.fixed_dictionaries({"op": st.just("enter"), "how": st.just("new"), "persistent": st.booleans()}),
-        st.just({"op": "exit"}),
-        st.just({"op": "reset"}),
-        st.fixed_dictionaries({"op": st.just("manual"), "active": st.booleans()}),
+        st.sampled_from([{"op": "exit"}, {"op": "reset"}, {"op": "manual", "active": True}, {"op": "manual", "active": False},
+                         {"op": "exit"}]),
         st.fixed_dictionaries({"op": st.just("qnode"), "c": circ(), "diff": st.sampled_from(["best", "parameter-shift", "backprop", None])}),
         st.fixed_dictionaries({"op": st.just("qnode"), "c": circ(), "diff": st.sampled_from(["best", "parameter-shift", "backprop", None])}),
         st.fixed_dictionaries({"op": st.just("grad"), "c": circ(grad=True),
@@ -112,8 +111,11 @@ def step_st():
                                "diff": st.sampled_from(["parameter-shift", "parameter-shift", "backprop", "adjoint", "adjoint-vjp"])}),
         st.fixed_dictionaries({"op": st.just("execute"), "circs": st.lists(circ(), min_size=1, max_size=4)}),
         st.fixed_dictionaries({"op": st.just("execute"), "circs": st.lists(circ(), min_size=2, max_size=4)}),
+        st.fixed_dictionaries({"op": st.just("execute"), "circs": st.lists(circ(), min_size=2, max_size=3)}),
         st.fixed_dictionaries({"op": st.just("dev"), "entry": st.sampled_from(ENTRY), "circs": st.lists(circ(grad=True, analytic=True), min_size=1, max_size=3),
                                "single": st.booleans()}),
+        st.fixed_dictionaries({"op": st.just("dev"), "entry": st.sampled_from(ENTRY[1:]),
+                               "circs": st.lists(circ(grad=True, analytic=True), min_size=2, max_size=3), "single": st.just(False)}),
         st.fixed_dictionaries({"op": st.just("dev"), "entry": st.just("execute"), "circs": st.lists(circ(), min_size=1, max_size=3),
                                "single": st.booleans()}),
     )
@@ -121,9 +123,15 @@ def step_st():
 
 @st.composite
 def strategy(draw, tier="quick"):
-    steps = draw(st.lists(step_st(), min_size=2, max_size=9 if tier == "quick" else 14))
+    steps = draw(st.lists(step_st(), min_size=3, max_size=10 if tier == "quick" else 16))
     first = {"op": "enter", "how": "new", "persistent": draw(st.booleans())}
-    if draw(st.integers(0, 4)) > 0:
+    if draw(st.booleans()):
+        g = draw(st.fixed_dictionaries({"op": st.just("grad"), "c": circ(grad=True),
+                                        "diff": st.sampled_from(["parameter-shift", "adjoint", "adjoint-vjp", "backprop"])}))
+        e = draw(st.fixed_dictionaries({"op": st.just("execute"), "circs": st.lists(circ(), min_size=2, max_size=4)}))
+        for x in (g, e):
+            steps.insert(draw(st.integers(0, len(steps))), x)
+    if draw(st.integers(0, 9)) > 0:
         steps = [first] + steps
     return {"device": draw(st.sampled_from(DEVICES)), "steps": steps}
 
@@ -525,6 +533,8 @@ def check(spec):
                     raise Reject(f"{name}: diff_method {s['diff']} not supported") from None
                 raise
             labels.append(f"{op}:{s['diff']}")
+            if op == "grad" and any(ev["active"] for ev in log):
+                recorded_grad = True
         elif op == "execute":
             tapes = [make_tape(qp, c) for c in s["circs"]]
             qp.execute(tapes, dev, diff_method=None)
